@@ -187,3 +187,168 @@ def po_vs_mo(chk, work, count, stats):
             if a != b:
                 found.append(_pair_replay('po-vs-mo-unsorted', cat, po2, mo, tp2, tm, {'charset': cs, 'modulo': 'multiset; order-sensitive tags dropped'}, d + '/x.{po,mo}'))
     return found
+
+# ----------------------------------------------------------------------------- packages
+
+MALFORMED = [
+    ('broken.po', b'msgid "a\nmsgstr "b"\n'),
+    ('syntax.po', b'msgid ""\nmsgstr ""\n"Content-Type: text/plain; charset=UTF-8\\n"\n\nmsgid "a"\nmsgstr "b"\nmsgstr "c"\nbogus line\n'),
+    ('latin.po', b'msgid ""\nmsgstr ""\n"Content-Type: text/plain; charset=UTF-8\\n"\n\nmsgid "a"\nmsgstr "\xe4"\n'),
+    ('empty.po', b''),
+    ('template.pot', b'msgid ""\nmsgstr ""\n"Content-Type: text/plain; charset=CHARSET\\n"\n\nmsgid "a"\nmsgstr ""\n'),
+    ('trunc.mo', b'\xde\x12\x04\x95\x00\x00\x00\x00\x05\x00\x00\x00'),
+    ('magic.mo', b'not an mo file at all'),
+    ('zero.gmo', b''),
+]
+
+def gen_package(rng, idx):
+    """→ (members {rel: bytes}, symlinks [(rel, target)], dirs [rel])"""
+    members, symlinks, dirs = {}, [], []
+    lang = rng.choice(['pl', 'de', 'ja', 'xx'])
+    for k in range(rng.randint(1, 4)):
+        cat = G.gen_catalog(rng, po_features=rng.random() < 0.5)
+        css = G.charsets_for(cat)
+        if not css:
+            continue
+        cs = rng.choice(css[:5])
+        d = rng.choice(G.MEMBER_DIRS) % {'lang': lang}
+        if rng.random() < 0.5:
+            members[f'{d}/{rng.choice(["gizmo", lang, "m e s", "zażółć", "x"])}{k}.{rng.choice(["po", "po", "pot"])}'] = G.render_po(cat, cs, G.Style(rng, rng.choice([0, 2])))
+        else:
+            members[f'{d}/{rng.choice(["gizmo", "x", "zażółć"])}{k}.{rng.choice(["mo", "mo", "gmo"])}'] = G.render_mo(cat, cs, G.gen_layout(rng))
+    for name, data in rng.sample(MALFORMED, k=rng.randint(0, 3)):
+        members[f'{rng.choice(G.MEMBER_DIRS) % {"lang": lang}}/{name}'] = data
+    for rel, data in rng.sample(G.OTHER_MEMBERS, k=rng.randint(1, 5)):
+        members[rel] = data
+    if rng.random() < 0.3:
+        members['deep.po/inside.txt'] = b'a directory named like a PO file\n'
+    po_members = [m for m in members if M.is_po_member(m)]
+    if po_members and rng.random() < 0.5:
+        symlinks.append(('usr/share/gizmo/link.po', '/' + rng.choice(po_members)))
+        symlinks.append(('usr/share/gizmo/rel-link.mo', os.path.basename(rng.choice(po_members))))
+    if rng.random() < 0.3:
+        symlinks.append(('usr/share/gizmo/dangling.po', '/nonexistent/x.po'))
+        symlinks.append(('usr/share/gizmo/dirlink', '/usr/share'))
+    if rng.random() < 0.3:
+        dirs.append('usr/share/gizmo/emptydir.po')
+    return members, symlinks, dirs
+
+def _pkg_replay(kind, deb, members, symlinks, extra):
+    data = open(deb, 'rb').read() if os.path.exists(deb) else b''
+    r = {'kind': kind, 'package_hex': data.hex() if len(data) < 60000 else data[:60000].hex() + '…',
+         'members': {k: v.hex()[:4000] for k, v in members.items()}, 'symlinks': symlinks,
+         'replay': 'write bytes.fromhex(package_hex) to p.deb; TMPDIR=<empty dir> /venv/bin/python /repo/i18nspector --unpack-deb p.deb; '
+                   'compare with the output for each member of `dpkg-deb -x p.deb X` checked alone (X/<member> rewritten to p.deb/<member>); list TMPDIR'}
+    r.update(extra)
+    return r
+
+def packages(chk, work, count, stats, cli_every=4):
+    """--unpack-deb: output = per-member outputs under <package>/<member>, nothing else, nothing left in TMPDIR"""
+    rng = chk.rng
+    M.H.ready()
+    from lib import cli
+    found = []
+    other = work.write('plain/other.txt', b'just a text file\n')
+    for idx in range(count):
+        members, symlinks, dirs = gen_package(rng, idx)
+        name = f'pkg{idx}'
+        try:
+            deb = M.build_deb(work, name, members, symlinks, dirs)
+            xroot = M.extract_deb(work, deb, name)
+        except common.Infra as exc:
+            stats['build_failed'] += 1
+            stats['build_error:' + str(exc)[:80]] += 1
+            continue
+        stats['packages'] += 1
+        stats['members'] += len(members)
+        fake_root = deb + '/'
+        blocks = M.expected_member_blocks(xroot, members, fake_root, 'inproc')
+        stats['po_mo_members'] += len(blocks)
+        stats['members_with_output'] += sum(1 for v in blocks.values() if v)
+        opts = M.options(unpack_deb=True)
+        with M.TmpdirGuard(work) as guard:
+            out, exc = M.inproc(cli.check_file, deb, options=opts)
+            left = guard.leftovers()
+        lines = out.splitlines()
+        base = {'package': deb, 'output': lines[:60], 'exception': exc}
+        if exc:
+            found.append(_pkg_replay('package-exception', deb, members, symlinks, base))
+        elif left:
+            found.append(_pkg_replay('temporary-files-left', deb, members, symlinks, dict(base, leftovers=left)))
+        else:
+            bad = M.match_blocks(lines, blocks)
+            if bad:
+                found.append(_pkg_replay('package-output-differs', deb, members, symlinks, dict(base, mismatch=bad)))
+            elif opts.ignore_tags or opts.fake_root is not None:
+                found.append(_pkg_replay('options-changed-by-package', deb, members, symlinks, dict(base, options=repr(opts))))
+        if found:
+            return found
+        # the run after a package: a later plain file must be reported as if alone
+        if idx % 3 == 0:
+            opts = M.options(unpack_deb=True)
+            with M.TmpdirGuard(work) as guard:
+                out2, exc2 = M.inproc(cli.check_all, [deb, other, deb], options=opts)
+                left = guard.leftovers()
+            exp_other, _ = M.inproc(cli.check_all, [other], options=M.options(unpack_deb=True))
+            l2 = out2.splitlines()
+            stats['sequence_runs'] += 1
+            k = len(lines)
+            if exc2 or left or l2[k:k + 1] != exp_other.splitlines() or sorted(l2[:k]) != sorted(lines) or sorted(l2[k + 1:]) != sorted(lines):
+                found.append(_pkg_replay('file-after-package', deb, members, symlinks,
+                                         {'args': [deb, other, deb], 'exception': exc2, 'leftovers': left, 'expected_for_other': exp_other, 'got_around': l2[max(0, k - 1):k + 2]}))
+                return found
+        # a member that makes the checker raise: the temporary tree must still go away (real check_deb, failing check_regular_file)
+        if idx % 4 == 1 and blocks:
+            victim = sorted(blocks)[-1]
+            orig = cli.check_regular_file
+            def failing(path, *, options, _orig=orig):
+                if path.endswith('/' + victim):
+                    raise RuntimeError('injected failure')
+                return _orig(path, options=options)
+            cli.check_regular_file = failing
+            try:
+                with M.TmpdirGuard(work) as guard:
+                    out3, exc3 = M.inproc(cli.check_file, deb, options=M.options(unpack_deb=True))
+                    left = guard.leftovers()
+            finally:
+                cli.check_regular_file = orig
+            stats['injected_failures'] += 1
+            if left or not (exc3 or '').startswith('RuntimeError'):
+                found.append(_pkg_replay('temporary-files-left-after-failure', deb, members, symlinks, {'leftovers': left, 'exception': exc3, 'failing_member': victim}))
+                return found
+        # the command-line tool itself
+        if idx % cli_every == 0:
+            tdir = os.path.join(work.root, f'cliT{idx}')
+            os.mkdir(tdir)
+            rel_deb = os.path.relpath(deb, work.root)
+            r = M.E.run_cli(['--unpack-deb', rel_deb, 'plain/other.txt'], work.root, extra_env={'TMPDIR': tdir})
+            stats['cli_runs'] += 1
+            exp = [M.rewrite_line(l, fake_root[:-1], rel_deb) if False else l.replace(fake_root, rel_deb + '/', 1) for l in lines]
+            got = r['stdout'].splitlines()
+            left = M.snapshot(tdir)
+            ok = r['rc'] == 0 and not r['stderr'] and sorted(got[:-1]) == sorted(exp) and got[-1:] == ['I: plain/other.txt: unknown-file-type'] and not left
+            if ok:
+                ok = M.match_blocks(got[:-1], {k: [l.replace(fake_root, rel_deb + '/', 1) for l in v] for k, v in blocks.items()}) is None
+            if not ok:
+                found.append(_pkg_replay('cli-package-run', deb, members, symlinks, {'rc': r['rc'], 'stderr': r['stderr'][-500:], 'stdout': got[:40], 'expected_multiset': exp[:40], 'leftovers': left}))
+                return found
+        shutil_rm(xroot)
+    # a file that is not a package, a truncated package
+    for bad_name, data in [('corrupt.deb', b'not a deb\n'), ('trunc.deb', None), ('x.dsc', b'Format: 3.0 (quilt)\nSource: x\n')]:
+        if data is None:
+            src = os.path.join(work.root, 'pkg0.deb')
+            if not os.path.exists(src):
+                continue
+            data = open(src, 'rb').read()[:200]
+        p = work.write('bad/' + bad_name, data)
+        with M.TmpdirGuard(work) as guard:
+            out, exc = M.inproc(cli.check_file, p, options=M.options(unpack_deb=True))
+            left = guard.leftovers()
+        stats['unreadable_packages'] += 1
+        if left:
+            found.append({'kind': 'temporary-files-left', 'file': bad_name, 'file_hex': data.hex(), 'leftovers': left, 'output': out, 'exception': exc})
+    return found
+
+def shutil_rm(p):
+    import shutil
+    shutil.rmtree(p, ignore_errors=True)
